@@ -1470,8 +1470,14 @@ class SubstitutionInverse(Rule):
         if lower is None or upper is None:
             raise AssertionError("SubstitutionInverse: cannot solve")
 
-        lower = limits.reduce_inf_limit(lower.subst(x.name, (1 / x) + e.lower), x.name, ctx.get_conds())
-        upper = limits.reduce_inf_limit(upper.subst(x.name, e.upper - (1 / x)), x.name, ctx.get_conds())
+        # The end points are approached from inside the interval, which lies below e.lower
+        # and above e.upper if the bounds are in descending order.
+        if has_descending_bounds(e):
+            lower = limits.reduce_inf_limit(lower.subst(x.name, e.lower - (1 / x)), x.name, ctx.get_conds())
+            upper = limits.reduce_inf_limit(upper.subst(x.name, (1 / x) + e.upper), x.name, ctx.get_conds())
+        else:
+            lower = limits.reduce_inf_limit(lower.subst(x.name, (1 / x) + e.lower), x.name, ctx.get_conds())
+            upper = limits.reduce_inf_limit(upper.subst(x.name, e.upper - (1 / x)), x.name, ctx.get_conds())
 
         lower = full_normalize(lower, ctx)
         upper = full_normalize(upper, ctx)
